@@ -134,6 +134,15 @@ def gen_group(rng, gi):
         params.append({'kind': 'gpointer', 'sp': 'gpointer', 'name': rng.choice(['func_data', 'closure_arg']), 'is_ret': False})
         if rng.random() < 0.4:
             params.append({'kind': 'destroy', 'sp': 'GDestroyNotify', 'name': 'dnotify', 'is_ret': False})
+    # every third group carries an array with a named length parameter, in each direction and either order
+    lenarr = None
+    if gi % 3 == 2:
+        ak = rng.choice(['intptr', 'strptr', 'record'])
+        arr = {'kind': ak, 'sp': rng.choice(apigen.KINDS[ak]), 'name': 'vals', 'is_ret': False}
+        ln = {'kind': 'int', 'sp': rng.choice(['gint', 'guint', 'gsize']), 'name': 'n_vals', 'is_ret': False}
+        pos = rng.randrange(len(params) + 1)
+        params[pos:pos] = [arr, ln] if rng.random() < 0.6 else [ln, arr]
+        lenarr = (arr, ln)
     rk = rng.choice(apigen.RETURN_KINDS)
     ret = {'kind': rk, 'sp': 'void' if rk == 'void' else rng.choice(apigen.KINDS[rk]), 'is_ret': True, 'name': None}
     sites = []
@@ -144,9 +153,14 @@ def gen_group(rng, gi):
     sites.append(ret)
     # cap the number of annotations (one baseline callable per annotation)
     total = [(s, a) for s in sites for a in s['anns']]
-    while len(total) > 4:
+    while len(total) > (2 if lenarr else 4):
         s, a = total.pop(rng.randrange(len(total)))
         del s['anns'][a]
+    if lenarr:
+        arr, ln = lenarr
+        d = rng.choice([None, 'out', 'inout', 'inout'])
+        arr['anns'] = collections.OrderedDict(([(d, [])] if d else []) + [('array', collections.OrderedDict([('length', 'n_vals')]))])
+        ln['anns'] = collections.OrderedDict()
     return {'parent': parent, 'params': params, 'ret': ret, 'gi': gi}
 
 
@@ -551,6 +565,7 @@ def run_case(case):
                             if lname and shared == 1 and lsite and not any(a in lsite[0]['anns'] for a in ('in', 'out', 'inout')):
                                 lp = site_node(vnode, {'is_ret': False, 'name': lname})
                                 want = None if adir == 'in' else adir
+                                res['hits']['length_direction:%s' % adir] += 1
                                 if lp is not None and lp.get('direction') != want:
                                     res['viol'].append(('valid:array:length-direction', '%s: length parameter %s has direction=%r, array is %s' % (
                                         where, lname, lp.get('direction'), adir), replay))
